@@ -6,7 +6,7 @@
 // 0..300, are built with the real constructors, passed to metadata.Default.New,
 // marshalled, unmarshalled, queried with Get/Protocols/Validate.  Decode side: valid
 // encodings, every truncation, bit flips, byte edits, unsorted concatenations, hostile
-// and malformed length prefixes, hand-written non-canonical DAG-CBOR, and random bytes up
+// and malformed length prefixes, non-minimal re-spellings of every varint, hand-written non-canonical DAG-CBOR, and random bytes up
 // to 1 KiB go through UnmarshalBinary in a memory-limited worker process.  The direct
 // oracles are taken from the property text; every case is also written out for the Coq
 // model (model/C11_Metadata.v) with what the implementation did.
@@ -328,7 +328,7 @@ func main() {
 	r := &runner{c: c, w: &worker{}, perClass: map[string]int{}, fails: map[string][]vlib.Failure{}, rawDec: map[string][]rawFail{}}
 	defer r.w.stop()
 	defer r.flush()
-	c.Res.Rule = "enc: EXHAUSTIVE over every sequence of length 1..3 (quick) / 1..4 (thorough) of a 12-symbol alphabet {bitswap, gateway, graphsync-filecoin x 4 piece CIDs/flag settings, 6 unknown codes below/between/above the known IDs with payloads 0..128}; SAMPLED: sequences of length 4..6 with random payloads 0..300 B and 9 piece CIDs, unknown payload length sweep 0..300 and 1000..1024, metadata.HTTPV1() combinations, 13..40 protocols with distinct IDs; non-trivial = at least 2 protocols one of which has a variable-length encoding. dec: valid encodings, all their truncations, bit flips, byte edits, all ordered pairs and random trains concatenated as given, hostile/boundary/malformed length prefixes, hand-written non-canonical DAG-CBOR, random bytes <= 1 KiB; non-trivial = accepted with >= 2 protocols, or rejected input of >= 3 bytes. lim: largest graphsync link the DAG-CBOR budget admits"
+	c.Res.Rule = "enc: EXHAUSTIVE over every sequence of length 1..3 (quick) / 1..4 (thorough) of a 12-symbol alphabet {bitswap, gateway, graphsync-filecoin x 4 piece CIDs/flag settings, 6 unknown codes below/between/above the known IDs with payloads 0..128}; SAMPLED: sequences of length 4..6 with random payloads 0..300 B and 9 piece CIDs, unknown payload length sweep 0..300 and 1000..1024, metadata.HTTPV1() combinations, 13..40 protocols with distinct IDs; non-trivial = at least 2 protocols one of which has a variable-length encoding. dec: valid encodings, all their truncations, bit flips, byte edits, all ordered pairs and random trains concatenated as given, hostile/boundary/malformed length prefixes, every varint of valid encodings (protocol code, unknown size, gateway length, the varints inside a CIDv1) re-spelled non-minimally with 1..3 and up-to-10-byte padding, padded size varints in front of payloads overlapping a well-formed protocol sequence at every alignment, hand-written non-canonical DAG-CBOR, random bytes <= 1 KiB; non-trivial = accepted with >= 2 protocols, or rejected input of >= 3 bytes. lim: largest graphsync link the DAG-CBOR budget admits"
 	c.Res.Exhaustive = false
 	c.Note(fmt.Sprintf("metadata.MaxMetadataSize = %d", metadata.MaxMetadataSize))
 
